@@ -6,6 +6,7 @@ import (
 	"go/types"
 	"regexp"
 	"strconv"
+	"strings"
 
 	"golang.org/x/tools/go/ssa"
 )
@@ -159,6 +160,9 @@ func (ex *Exec) execInstr(fr *Frame, st *State, in ssa.Instruction) {
 			p := ex.newObj()
 			st.heap.store(p, et, zeroVal(et))
 			fr.regs[x] = p
+			if privateCell(x) {
+				ex.private = append(ex.private, privCell{p, et})
+			}
 		}
 	case *ssa.Store:
 		ex.store(fr, st, ex.operand(fr, x.Addr), x.Val.Type(), ex.operand(fr, x.Val))
@@ -314,6 +318,11 @@ func (ex *Exec) unop(fr *Frame, st *State, x *ssa.UnOp) Val {
 	v := ex.operand(fr, x.X)
 	switch x.Op {
 	case token.MUL:
+		if g, ok := x.X.(*ssa.Global); ok {
+			if c := ex.constGlobal(g); c != nil {
+				return c
+			}
+		}
 		r := ex.load(fr, st, v, x.Type())
 		if g, ok := x.X.(*ssa.Global); ok && ex.spec == 0 {
 			ex.assumeGlobalInv(fr, st, g)
@@ -515,8 +524,9 @@ func (ex *Exec) sliceOp(fr *Frame, st *State, x *ssa.Slice) Val {
 	} else {
 		lo = IntT(0)
 	}
+	var max *Term
 	if x.Max != nil {
-		unsupp("3-index slice")
+		max = ex.term(fr, x.Max)
 	}
 	switch u := x.X.Type().Underlying().(type) {
 	case *types.Basic:
@@ -536,6 +546,10 @@ func (ex *Exec) sliceOp(fr *Frame, st *State, x *ssa.Slice) Val {
 		} else {
 			hi = ln
 		}
+		if max != nil {
+			ex.oblige(fr, st, "slice", ex.exprText(x.Pos(), x.X.Name()), And(Ge(lo, IntT(0)), Le(lo, hi), Le(hi, max), Le(max, cp)), x.Pos(), "slice bounds in range")
+			return &Agg{F: []Val{arr, Add(off, lo), Sub(hi, lo), Sub(max, lo)}}
+		}
 		ex.oblige(fr, st, "slice", ex.exprText(x.Pos(), x.X.Name()), And(Ge(lo, IntT(0)), Le(lo, hi), Le(hi, cp)), x.Pos(), "slice bounds in range")
 		return &Agg{F: []Val{arr, Add(off, lo), Sub(hi, lo), Sub(cp, lo)}}
 	case *types.Pointer:
@@ -549,6 +563,10 @@ func (ex *Exec) sliceOp(fr *Frame, st *State, x *ssa.Slice) Val {
 			hi = ex.term(fr, x.High)
 		} else {
 			hi = n
+		}
+		if max != nil {
+			ex.oblige(fr, st, "slice", ex.exprText(x.Pos(), x.X.Name()), And(Ge(lo, IntT(0)), Le(lo, hi), Le(hi, max), Le(max, n)), x.Pos(), "array slice bounds in range")
+			return &Agg{F: []Val{p, lo, Sub(hi, lo), Sub(max, lo)}}
 		}
 		ex.oblige(fr, st, "slice", ex.exprText(x.Pos(), x.X.Name()), And(Ge(lo, IntT(0)), Le(lo, hi), Le(hi, n)), x.Pos(), "array slice bounds in range")
 		return &Agg{F: []Val{p, lo, Sub(hi, lo), Sub(n, lo)}}
@@ -819,4 +837,107 @@ func (ex *Exec) divHints() []int64 {
 		}
 	}
 	return out
+}
+
+
+type privCell struct {
+	p *Term
+	t types.Type
+}
+
+// privateCell: a heap-allocated local whose address is only ever loaded from, stored to, or captured
+// by closures that themselves only load/store it. No callee can reach such a cell, so a havoc
+// caused by a call leaves it unchanged.
+func privateCell(a *ssa.Alloc) bool {
+	var ok func(v ssa.Value, depth int) bool
+	ok = func(v ssa.Value, depth int) bool {
+		if depth > 3 {
+			return false
+		}
+		refs := v.Referrers()
+		if refs == nil {
+			return false
+		}
+		for _, r := range *refs {
+			switch x := r.(type) {
+			case *ssa.Store:
+				if x.Addr != v {
+					return false // the address itself is stored somewhere
+				}
+			case *ssa.UnOp:
+			case *ssa.DebugRef:
+			case *ssa.FieldAddr:
+				if !ok(x, depth+1) {
+					return false
+				}
+			case *ssa.MakeClosure:
+				fn := x.Fn.(*ssa.Function)
+				for i, b := range x.Bindings {
+					if b == v {
+						if i >= len(fn.FreeVars) || !ok(fn.FreeVars[i], depth+1) {
+							return false
+						}
+					}
+				}
+			default:
+				return false
+			}
+		}
+		return true
+	}
+	return ok(a, 0)
+}
+
+// preservingPrivate runs a heap havoc and then restores the private cells.
+func (ex *Exec) preservingPrivate(st *State, havoc func()) {
+	type saved struct {
+		c privCell
+		v Val
+	}
+	var sv []saved
+	for _, c := range ex.private {
+		sv = append(sv, saved{c, st.heap.load(c.p, c.t, nil)})
+	}
+	havoc()
+	for _, s := range sv {
+		st.heap.store(s.c.p, s.c.t, s.v)
+	}
+}
+
+
+// constGlobal: exported error variables of dependencies (io.EOF, ...) are never reassigned; they
+// are modelled as constants that are non-nil and pairwise distinct.
+func (ex *Exec) constGlobal(g *ssa.Global) Val {
+	if g.Pkg == nil || strings.HasPrefix(g.Pkg.Pkg.Path(), modPath) {
+		return nil
+	}
+	et := elemOfPtr(g.Type())
+	if kindOf(et) != kIface || !types.Identical(et, types.Universe.Lookup("error").Type()) {
+		return nil
+	}
+	name := g.Pkg.Pkg.Path() + "." + g.Name()
+	if v, ok := ex.constGlobals[name]; ok {
+		return v
+	}
+	ex.assumed["exported error variables of dependencies (e.g. "+name+") are constants: never reassigned, non-nil, pairwise distinct"] = true
+	tag, pl := Const("glob@"+name+".tag", SInt), Const("glob@"+name+".pl", SPtr)
+	ex.tagFacts = append(ex.tagFacts, Gt(tag, IntT(0)), Not(UF("boxedtag", SBool, tag)))
+	for _, o := range ex.constGlobals {
+		ex.tagFacts = append(ex.tagFacts, Not(Eq(pl, o.(*Agg).F[1].(*Term))))
+	}
+	v := &Agg{F: []Val{tag, pl}}
+	ex.constGlobals[name] = v
+	return v
+}
+
+func (ex *Exec) errGlobal(pkg, name string) *Agg {
+	p := ex.prog.SSA.ImportedPackage(pkg)
+	if p == nil {
+		unsupp("package %s not loaded", pkg)
+	}
+	g, _ := p.Members[name].(*ssa.Global)
+	if g == nil {
+		unsupp("no global %s.%s", pkg, name)
+	}
+	return ex.constGlobal(g).(*Agg)
 }
